@@ -3,6 +3,8 @@ import AnonCreds.Model.Fr
 import AnonCreds.Model.Vb20
 import AnonCreds.Model.Registry
 import AnonCreds.Model.Sigma
+import AnonCreds.Model.Verify
+import AnonCreds.Model.Transcript
 /-
 Line-protocol driver: one request per line on stdin, one reply per line on stdout.
 Unknown or malformed requests answer `bad-op` (never a default value).
@@ -146,6 +148,89 @@ def sigmaOp (toks : List String) : Option String :=
     | _, _, _, _, _, _, _ => none
   | _ => none
 
+/-- `label~claim~scalar;…` reported map with the encoding of each claim -/
+def reportedOf? (s : String) : Option (List (String × ClaimData × Fr)) :=
+  if s = "-" then some [] else (s.splitOn ";").mapM fun e =>
+    match e.splitOn "~" with
+    | [l, c, x] => match claimOf? c, frOf? x with
+      | some c, some x => some (l, c, x)
+      | _, _ => none
+    | _ => none
+
+def strsOf (s : String) : List String := if s = "-" then [] else s.splitOn ","
+
+/-- decision logic of `Presentation::verify` (C01, C02) -/
+def verifyOp (toks : List String) : Option String :=
+  open AC.Verify in
+  match toks with
+  | ["vf.disclosed", req, labels, types, rep, inner] =>
+    match (strsOf types).mapM typeOf?, reportedOf? rep, rvlOf? inner with
+    | some types, some rep, some inner =>
+      let enc : ClaimData → Fr := fun c => ((rep.find? (fun e => e.2.1 == c)).map (·.2.2)).getD 0
+      some (toString (checkDisclosed enc ⟨"", strsOf req, strsOf labels, types⟩ inner (rep.map fun e => (e.1, e.2.1))))
+    | _, _, _ => none
+  | _ => none
+
+/-- statement token of `tr.public` (see DESIGN.md appendix B) -/
+def stmtOf? (tok : String) : Option (Bytes × AC.Transcript.StmtT) :=
+  open AC.Transcript in
+  let b := bytesOf?
+  let bl := listOf? bytesOf?
+  let optInt : String → Option (Option Int) := fun s => if s = "-" then some none else (s.toInt?).map some
+  match tok.splitOn "|" with
+  | [k, "sig", id, d, iid, vk, rvk, reg, vek, sid, sl, sd, bc, ci, nc] =>
+    match b k, b id, bl d, b iid, b vk, b rvk, b reg, b vek, b sid, b sl, b sd, bl bc, bl ci, nc.toNat? with
+    | some k, some id, some d, some iid, some vk, some rvk, some reg, some vek, some sid, some sl, some sd, some bc, some ci, some nc =>
+      some (k, .signature id d ⟨iid, vk, rvk, reg, vek, ⟨sid, sl, sd, bc, ci, nc⟩⟩)
+    | _, _, _, _, _, _, _, _, _, _, _, _, _, _ => none
+  | [k, "rev", id, r, c, vk, acc] =>
+    match b k, b id, b r, c.toNat?, b vk, b acc with
+    | some k, some id, some r, some c, some vk, some acc => some (k, .revocation id r c vk acc)
+    | _, _, _, _, _, _ => none
+  | [k, "mem", id, r, c, vk, acc] =>
+    match b k, b id, b r, c.toNat?, b vk, b acc with
+    | some k, some id, some r, some c, some vk, some acc => some (k, .membership id r c vk acc)
+    | _, _, _, _, _, _ => none
+  | [k, "eq", id, refs] =>
+    let rs : Option (List (Bytes × Nat)) := if refs = "-" then some [] else (refs.splitOn ",").mapM fun e =>
+      match e.splitOn ":" with
+      | [r, i] => match b r, i.toNat? with
+        | some r, some i => some (r, i)
+        | _, _ => none
+      | _ => none
+    match b k, b id, rs with
+    | some k, some id, some rs => some (k, .equality id rs)
+    | _, _, _ => none
+  | [k, "com", id, r, c, mg, bg] =>
+    match b k, b id, b r, c.toNat?, b mg, b bg with
+    | some k, some id, some r, some c, some mg, some bg => some (k, .commitment id r c mg bg)
+    | _, _, _, _, _, _ => none
+  | [k, "rng", id, r, sg, c, lo, hi] =>
+    match b k, b id, b r, b sg, c.toNat?, optInt lo, optInt hi with
+    | some k, some id, some r, some sg, some c, some lo, some hi => some (k, .range id r sg c lo hi)
+    | _, _, _, _, _, _, _ => none
+  | [k, "ve", id, al, r, c, mg, key] =>
+    match b k, b id, b r, c.toNat?, b mg, b key with
+    | some k, some id, some r, some c, some mg, some key => some (k, .verenc id (al = "1") r c mg key)
+    | _, _, _, _, _, _ => none
+  | [k, "ved", id, r, c, mg, key] =>
+    match b k, b id, b r, c.toNat?, b mg, b key with
+    | some k, some id, some r, some c, some mg, some key => some (k, .ved id r c mg key)
+    | _, _, _, _, _, _ => none
+  | _ => none
+
+def itemStr (i : AC.Transcript.Item) : String := hexOf (AC.Transcript.str i.label) ++ ":" ++ hexOf i.data
+
+/-- Fiat–Shamir transcript, public part (C04) -/
+def transcriptOp (toks : List String) : Option String :=
+  match toks with
+  | "tr.public" :: g1 :: g2 :: nonce :: sid :: stmts =>
+    match bytesOf? g1, bytesOf? g2, bytesOf? nonce, bytesOf? sid, stmts.mapM stmtOf? with
+    | some g1, some g2, some nonce, some sid, some stmts =>
+      some (" ".intercalate ((AC.Transcript.publicItems g1 g2 nonce sid stmts).map itemStr))
+    | _, _, _, _, _ => none
+  | _ => none
+
 /-! ### stateful part: issuer registry (C13, C06) -/
 
 structure RegD where
@@ -212,6 +297,12 @@ def answer (d : DState) (line : String) : DState × String :=
   | some r => (d, r)
   | none =>
   match sigmaOp toks with
+  | some r => (d, r)
+  | none =>
+  match verifyOp toks with
+  | some r => (d, r)
+  | none =>
+  match transcriptOp toks with
   | some r => (d, r)
   | none =>
   match regOp d toks with
